@@ -214,6 +214,91 @@ func genFacts() {
 		}
 	}
 	b.WriteString("]\n\n")
+	genInPlaceFacts(&b)
 	b.WriteString("end Miller.Gen\n")
 	emit("Facts.lean", b.String())
+}
+
+
+// --- C19: the ordered effectful calls of entrypoint.processFileInPlace, each with whether the
+// `if err != nil` block that follows it removes the temporary file.
+func genInPlaceFacts(b *strings.Builder) {
+	ep := loadPkg("pkg/entrypoint")
+	type step struct {
+		call    string
+		removes bool
+		checked bool
+	}
+	var steps []step
+	var fd *ast.FuncDecl
+	for _, fn := range ep.names {
+		for _, d := range ep.files[fn].Decls {
+			if x, ok := d.(*ast.FuncDecl); ok && x.Name.Name == "processFileInPlace" {
+				fd = x
+			}
+		}
+	}
+	if fd == nil {
+		fatal("processFileInPlace not found")
+	}
+	callName := func(e ast.Expr) string {
+		if c, ok := e.(*ast.CallExpr); ok {
+			return exprString(ep.fset, c.Fun)
+		}
+		return ""
+	}
+	containsRemove := func(n ast.Node) bool {
+		found := false
+		ast.Inspect(n, func(c ast.Node) bool {
+			if ce, ok := c.(*ast.CallExpr); ok && exprString(ep.fset, ce.Fun) == "os.Remove" {
+				found = true
+			}
+			return true
+		})
+		return found
+	}
+	var walkStmt func(st ast.Stmt)
+	walkBlock := func(bl *ast.BlockStmt) {
+		for _, st := range bl.List {
+			walkStmt(st)
+		}
+	}
+	noteCalls := func(rhs []ast.Expr) {
+		for _, e := range rhs {
+			if n := callName(e); n != "" && n != "lib.VerifPoint" && n != "os.Remove" && n != "handle.Name" && n != "path.Dir" && n != "fileInfo.Mode" && n != "os.IsNotExist" {
+				steps = append(steps, step{call: n})
+			}
+		}
+	}
+	walkStmt = func(st ast.Stmt) {
+		switch x := st.(type) {
+		case *ast.AssignStmt:
+			noteCalls(x.Rhs)
+		case *ast.ExprStmt:
+			noteCalls([]ast.Expr{x.X})
+		case *ast.IfStmt:
+			if x.Init != nil {
+				walkStmt(x.Init)
+			}
+			cond := exprString(ep.fset, x.Cond)
+			if cond == "err != nil" || strings.Contains(cond, "os.IsNotExist(err)") {
+				if len(steps) > 0 && !steps[len(steps)-1].checked {
+					steps[len(steps)-1].checked = true
+					steps[len(steps)-1].removes = containsRemove(x.Body)
+				}
+			} else {
+				walkBlock(x.Body)
+			}
+		case *ast.ReturnStmt:
+		}
+	}
+	walkBlock(fd.Body)
+	b.WriteString("/-- C19: the effectful calls of entrypoint.processFileInPlace in statement order; for each, is its\nerror checked, and does the error branch remove the temporary file. -/\ndef inPlaceSteps : List (String × Bool × Bool) := [")
+	for i, s := range steps {
+		if i > 0 {
+			b.WriteString(", ")
+		}
+		fmt.Fprintf(b, "(%s, %v, %v)", leanString(s.call), s.checked, s.removes)
+	}
+	b.WriteString("]\n\n")
 }
